@@ -209,6 +209,16 @@ def gen_layout(rng):
     L["types"] = {"dir": place(), "name": gen_name(rng, ".xml")}
     L["base3"] = {"dir": "top", "name": gen_name(rng, ".xml", blanks=False)}
     L["conf"] = {"dir": "top", "name": gen_name(rng, ".conf")}
+    # names that begin or end with a blank: only for the two resources that are named from
+    # outside (references inside resources are stripped by the readers)
+    for k in ("schema", "conf"):
+        r = rng.random()
+        if r < 0.15:
+            L[k]["name"] = " " + L[k]["name"]
+        elif r < 0.3:
+            L[k]["name"] = L[k]["name"] + " "
+        elif r < 0.35:
+            L[k]["name"] = " " + L[k]["name"] + " "
     L["inc1"] = {"dir": place(), "name": gen_name(rng, ".conf")}
     L["inc2"] = {"dir": place(), "name": gen_name(rng, ".conf")}
     # 'extends' is a blank-separated list: keep blanks out of those two references
